@@ -110,7 +110,10 @@ MsgClause(c, g, hop, m, payload, skip) ==
     IN
     IF on("RedirectWithinBudget") /\ g.n > Budget(c) THEN "RedirectWithinBudget"
     ELSE IF on("NoContactWhenDisabled") /\ Disabled(c) /\ ~first THEN "NoContactWhenDisabled"
-    ELSE IF on("SingleHostRefuses") /\ ~Managed(c) /\ Origin(m.url) # Origin(c.start) THEN "SingleHostRefuses"
+    ELSE IF on("SingleHostRefuses") /\ ~Managed(c)
+            /\ (\/ Origin(m.url) # Origin(c.start)                                         \* sent to another host
+                \/ ~first /\ hop.form = "abs" /\ ~SameOrigin(Resolve(g.exp, hop), c.start))  \* followed, not refused
+         THEN "SingleHostRefuses"
     ELSE IF on("RelativeResolved") /\ (Managed(c) \/ first) /\ (Origin(m.url) # Origin(g2.exp) \/ m.url.path # g2.exp.path)
          THEN "RelativeResolved"
     ELSE IF on("SeeOtherRewrites") /\ ~first /\ hop.code = 303
